@@ -48,8 +48,9 @@ def _sorted_cols(a):
 
 
 # ------------------------------------------------------------------ tag carry-over
-def check_tags(ctx, op, new, exp_sub, exp_bnd, mech_sub=None, mech_bnd=None, **info):
+def check_tags(ctx, op, new, exp_sub, exp_bnd, /, mech_sub=None, mech_bnd=None, **info):
     """exp_sub / exp_bnd: {name: set of geometric keys} that the result must designate."""
+    info.setdefault("op", op)
     nsub, nbnd = tag_arrays(new.mesh)
     nf = int(np.asarray(new.mesh.facets).shape[1]) if exp_bnd or nbnd else 0
     for what, exp, got_arrays, n, geo, mon, mech in (
@@ -58,19 +59,19 @@ def check_tags(ctx, op, new, exp_sub, exp_bnd, mech_sub=None, mech_bnd=None, **i
         for name, want in exp.items():
             arr = got_arrays.get(name)
             if arr is None:
-                ctx.check(mon, not want, mech=mech or f"{op}:{what}-tag-dropped:{new.kind}", op=op, name=name,
+                ctx.check(mon, not want, mech=mech or f"{op}:{what}-tag-dropped:{new.kind}", name=name,
                           expected=len(want), **info)
                 continue
             prob = index_problems(arr, n)
             got = geo(new, arr) if prob is None or prob[0] == "repeated-index" else set()
-            ctx.check(mon, want <= got, mech=mech or f"{op}:{what}-tag-lost-entities:{new.kind}", op=op, name=name,
+            ctx.check(mon, want <= got, mech=mech or f"{op}:{what}-tag-lost-entities:{new.kind}", name=name,
                       missing=lambda: len(want - got), expected=len(want), got=len(got), index_problem=prob, **info)
             ctx.check("removed-tags-vanish", prob is None and got <= want,
-                      mech=mech or f"{op}:{what}-tag-designates-wrong-entities:{new.kind}", op=op, name=name,
+                      mech=mech or f"{op}:{what}-tag-designates-wrong-entities:{new.kind}", name=name,
                       extra=lambda: len(got - want), expected=len(want), got=len(got), index_problem=prob, **info)
         for name in got_arrays:
             if name not in exp:
-                ctx.check("removed-tags-vanish", False, mech=f"{op}:{what}-tag-invented:{new.kind}", op=op, name=name)
+                ctx.check("removed-tags-vanish", False, mech=f"{op}:{what}-tag-invented:{new.kind}", name=name)
 
 
 def check_valid(ctx, op, new, mech=None, lib=True, **kw):
